@@ -129,7 +129,8 @@ fn targets_for(from: &str, keys: &[String], o: &LibOpts, rng: &mut Rng) -> (Vec<
         });
     }
     if o.foreign {
-        for e in ["zotero://select/items/A1", "file:///home/me/scan.pdf", "/assets/handbook.pdf", "tel:+123", "ftp://host/file"] {
+        // (also addresses with a second colon: a port, a colon in the path, a URN)
+        for e in ["zotero://select/items/A1", "file:///home/me/scan.pdf", "/assets/handbook.pdf", "tel:+123", "ftp://host/file", "http://localhost:8080/docs", "https://en.wikipedia.org/wiki/Help:Contents", "urn:isbn:0451450523"] {
             inline_targets.push(Target { dest: e.to_string(), external: true });
         }
         if o.inline_internal && (o.cross_dir_inline || dir.is_empty()) {
